@@ -42,6 +42,7 @@ func main() {
 		explain  = flag.String("explain", "", "re-run the obligation stored in a replay file")
 		mutants  = flag.Bool("mutants", false, "list the sensitivity mutants")
 		noEvid   = flag.Bool("no-evidence", false, "internal: do not write evidence (mutant runs)")
+		verbose  = flag.Bool("v", false, "print every obligation")
 		selftest = flag.Bool("selftest", false, "run the sensitivity mutants of -property (or of all properties) and report caught/missed")
 	)
 	flag.Parse()
@@ -126,6 +127,11 @@ func main() {
 	meta.assumptions = append(append([]string{}, commonAssumptions...), meta.assumptions...)
 	if *tier == "thorough" && *mutant == "" {
 		meta.extra = thoroughExtras(*repo, *verif, *prop, c)
+	}
+	if *verbose {
+		for _, o := range c.Obls {
+			fmt.Printf("%-10s %-10s %s @%s :: %s\n", o.Verdict, o.Rule, o.Key, o.Pos, o.Detail)
+		}
 	}
 	if *noEvid {
 		// mutant run: print findings only
